@@ -16,6 +16,8 @@
 #include <exception>
 #include <fstream>
 #include <iostream>
+#include <sstream>
+#include <string>
 #include <unordered_set>
 
 #include "exec.hpp"
@@ -203,6 +205,25 @@ int main(int argc, char** argv) {
     else if (a == "-v") verbose = true;
     else file = argv[i];
   }
+  bool range_replay = false;
+  if (cmd == "replay" && file) {
+    // a replay file may name a range of seeds instead of one plan: a violation that only shows after the runs before it in
+    // the same process (state that the library keeps across worlds). "range <profile> <first seed> <count> <faults> [flags]"
+    std::ifstream rf(file); std::string line;
+    while (std::getline(rf, line)) {
+      if (line.compare(0, 6, "range ") != 0) continue;
+      std::istringstream ls(line.substr(6)); std::string flag;
+      ls >> profile >> base >> count >> faults;
+      while (ls >> flag) {
+        if (flag == "--no-multi-monitor") globals().known_multi_monitor_allowed = false;
+        else if (flag == "--no-assign-watched") globals().known_assign_watched_allowed = false;
+        else if (flag == "--no-seq-destroy-live") globals().known_seq_destroy_live_allowed = false;
+        else if (flag == "--deep") globals().deep = true;
+      }
+      range_replay = true; cmd = "run"; samples = 0;
+      break;
+    }
+  }
   if (cmd == "replay") return file ? do_replay(file, verbose) : 2;
   int pf = profile_from_name(profile);
   if (pf < 0) { std::fprintf(stderr, "unknown profile %s\n", profile.c_str()); return 2; }
@@ -265,15 +286,15 @@ int main(int argc, char** argv) {
         failed = true;
         ++violations;
         const Violation& v = ex.violation();
-        std::string path = out + "/seed-" + std::to_string(s) + "-" + profile + (faults ? "" : "-nofault") + ".replay";
-        write_replay(path, p, &v, lh, "simH");
+        std::string path = range_replay ? std::string(file) : out + "/seed-" + std::to_string(s) + "-" + profile + (faults ? "" : "-nofault") + ".replay";
+        if (!range_replay) write_replay(path, p, &v, lh, "simH");
         std::printf("V %llu %s %s %s | %s\n", s, v.props.c_str(), v.oracle.c_str(), path.c_str(), one_line(v.text).c_str());
         std::printf("R %llu %016llx %016llx %x %zu\n", s, static_cast<unsigned long long>(lh), static_cast<unsigned long long>(fph), mask, nops);
         std::printf("STATES %zu\n", states.size());
         std::printf("STATS %s\n", total.to_json().c_str());
         std::fflush(stdout);
         // after a violation the real world is not trustworthy: do not run its destructors; the driver restarts us
-        _exit(3);
+        _exit(range_replay ? 1 : 3);
       }
     }
 #ifdef SIM_ASAN
